@@ -306,8 +306,13 @@ def search(ck, tu, tcs, maxsize, seed):
             ck.finding("mid_split_mask:pattern", "features=%d -> %s" % (feats, m), {"search": "mid_mask", "features": feats})
         for trial in range(3):
             torch.manual_seed(seed + feats * 7 + trial)
-            m = tu.create_random_binary_mask(feats).tolist()
+            r = attempt(tu.create_random_binary_mask, feats)
             ck.case(("s-rnd", feats, trial))
+            if r[0] != "ok":
+                ck.finding("random_mask:raises", "create_random_binary_mask(%d) raised %s: %s" % (feats, r[1], r[2]),
+                           {"search": "random_mask", "features": feats})
+                continue
+            m = r[1].tolist()
             if sum(m) != half or set(m) - {0, 1} or len(m) != feats:
                 ck.finding("random_mask:count", "features=%d -> %s (expected %d ones)" % (feats, m, half),
                            {"search": "random_mask", "features": feats, "seed": seed + feats * 7 + trial})
